@@ -211,6 +211,21 @@ def _affine(term):
     return (a, y0 - a * 10)
 
 
+def _startpos_vars(prog: Program) -> set:
+    """Names of the loop-carried variables the startpos= argument is computed from."""
+    try:
+        sim = FactorySim(prog)
+    except AnalysisError:
+        return set()
+    out = set()
+    for p in sim.post_paths:
+        if p.exit[0] == "return" and p.exit[1][0] == "call":
+            sp = dict(p.exit[1][3]).get("startpos")
+            if sp is not None:
+                out |= {s[1] for s in T.walk(sp) if s[0] == "param" and s[1] in sim.vars}
+    return out
+
+
 def factory_facts(prog: Program, rep: Report):
     f = prog.function(f"{MOD}._get_binding")
     ps = P.paths_of(prog, f)
@@ -247,7 +262,7 @@ def factory_facts(prog: Program, rep: Report):
         um_ok = True
         um_term = None
         for e in p.events:
-            if e[0] == "setitem" and e[4] == "binding":
+            if e[0] == "setitem" and e[1][0] == "dict":
                 idx, val = e[2], e[3]
                 if not (T.is_call_to(val, "typelib.unmarshals.api.unmarshaller") and len(val[2]) == 1 and val[2][0][0] == "attr" and val[2][0][2] == "annotation"):
                     um_ok = False
@@ -277,10 +292,11 @@ def factory_facts(prog: Program, rep: Report):
                 truth[k] = vv[1] if vv[0] == "const" else None
         maxpos = None
         inloop = False
+        startpos_vars = _startpos_vars(prog)
         for e in p.events:
             if e[0] == "loop" and e[2] == 1:
                 inloop = True
-            if inloop and e[0] == "assign" and e[1] == "max_pos":
+            if inloop and e[0] == "assign" and e[1] in startpos_vars:
                 maxpos = e[2]
         sp = kwargs.get("startpos")
         facts[kind] = {
@@ -408,6 +424,10 @@ class FactorySim:
         if len(pre_paths) != 1:
             raise AnalysisError("_get_binding: branching before the parameter loop")
         self.init = {v: pre_paths[0].env.get(v) for v in self.vars}
+        dicts = [v for v, t0 in self.init.items() if t0 is not None and t0[0] == "dict"]
+        if len(dicts) != 1:
+            raise AnalysisError("_get_binding: expected exactly one local mapping filled by the parameter loop")
+        self.binding_var = dicts[0]
         self.body_paths = P.block_paths(prog, self.f, self.loop.body, self.vars + tnames + self.f.params, "loop-body")
         self.post_paths = P.block_paths(prog, self.f, self.post, self.vars + self.f.params, "post")
         # which target is the index / the name / the parameter object (from `for i, (name, param) in enumerate(params.items())`)
@@ -444,7 +464,7 @@ class FactorySim:
             for e in chosen.events:
                 if e[0] == "assign" and e[1] in self.vars:
                     new[e[1]] = _under_kind(P.substitute(e[2], sigma), kind)
-                elif e[0] == "setitem" and (e[4] == "binding" or e[1] == ("param", "binding")):
+                elif e[0] == "setitem" and e[1] == ("param", self.binding_var):
                     k = _under_kind(P.substitute(e[2], sigma), kind)
                     v = _under_kind(P.substitute(e[3], sigma), kind)
                     if k[0] == "const" and isinstance(k[1], int):
